@@ -88,13 +88,15 @@ func C10(r *core.Run) {
 	rng := r.Rand("c10")
 	names := []string{"SID", "proxy-session", "__Host-agent", "x.y_z"}
 	lifetimes := []int{600, 3600, 43200, 2592000}
-	nSeq := r.Pick(200, 5000)
-	nConc := r.Pick(30, 1000)
+	nSeq := r.Pick(200, 10000)
+	nConc := r.Pick(30, 3000)
+	seqSteps, seqSpread := r.Pick(24, 30), r.Pick(13, 31)    // requests per history: quick 24-36, thorough 30-60
+	concSteps, concSpread := r.Pick(10, 20), r.Pick(9, 21) // requests per goroutine: quick 10-18, thorough 20-40
 	var seq, conc []c10Case
 	for i := 0; i < nSeq; i++ {
 		c := c10Case{
 			ID: fmt.Sprintf("s%d-seq-%d", r.Seed, i), Kind: "seq", Seed: rng.Int63(),
-			Sessions: 2 + i%5, Hosts: 1 + (i/5)%3, Steps: 24 + rng.Intn(13),
+			Sessions: 2 + i%5, Hosts: 1 + (i/5)%3, Steps: seqSteps + rng.Intn(seqSpread),
 			CacheLimit: 1000, DisableSSL: (i/15)%2 == 1,
 			CookieName: names[(i/30)%len(names)], LifetimeS: lifetimes[(i/7)%len(lifetimes)],
 		}
@@ -116,7 +118,7 @@ func C10(r *core.Run) {
 	for i := 0; i < nConc; i++ {
 		c := c10Case{
 			ID: fmt.Sprintf("s%d-conc-%d", r.Seed, i), Kind: "conc", Seed: rng.Int63(),
-			Goroutines: 8 + (i*3)%9, Sessions: 2 + i%4, Steps: 10 + rng.Intn(9),
+			Goroutines: 8 + (i*3)%9, Sessions: 2 + i%4, Steps: concSteps + rng.Intn(concSpread),
 			CacheLimit: 1000, DisableSSL: i%3 == 0, Forced: i%2 == 0,
 			CookieName: names[(i/4)%len(names)], LifetimeS: lifetimes[i%len(lifetimes)],
 		}
@@ -196,7 +198,7 @@ func C10(r *core.Run) {
 		}
 	}
 	shard(seq, r.Pick(4, 6), 4)
-	shard(conc, r.Pick(6, 10), 1)
+	shard(conc, r.Pick(6, 12), 1)
 	wg.Wait()
 
 	// ---- verdicts and evidence
